@@ -28,8 +28,14 @@ func c15Layout(t *rapid.T, win memWindow) (blocks []c15Block, overlap bool) {
 	n := rapid.IntRange(0, 6).Draw(t, "nblocks")
 	wantOverlap := n >= 2 && rapid.IntRange(0, 3).Draw(t, "overlap") == 0
 	used := make([]bool, win.size)
+	// in the large windows half of the layouts are dense (blocks of up to 250
+	// bytes), so that wide accesses find long present ranges
+	dense := win.size >= 600 && rapid.Bool().Draw(t, "denseLayout")
 	for i := 0; i < n; i++ {
 		ln := rapid.IntRange(1, 12).Draw(t, "blen")
+		if dense {
+			ln = rapid.IntRange(1, 250).Draw(t, "blenDense")
+		}
 		off := rapid.IntRange(0, win.size-ln).Draw(t, "boff")
 		clash := false
 		for k := off; k < off+ln; k++ {
